@@ -63,6 +63,9 @@ Modules(tier) ==
   { N("module", "m", {}, << x >>) : x \in Classes(tier) \cup Funcs \cup Enums }
   \cup { N("module", "m", {}, << x, y >>) : x \in Funcs \cup Enums, y \in { c \in Classes(tier) : c.name = "Cls" /\ Len(c.ch) <= 2 } }
   \cup { N("module", "m", {}, << y, x, z >>) : x \in Funcs, z \in Enums, y \in { c \in Classes(tier) : c.name = "Cls" /\ Len(c.ch) = 1 } }
+  \* names that merely end in "__init__": a class Cls__init__ with attributes and a constructor, a module file m__init__.py
+  \cup { N("module", "m", {}, << ClassN("Cls__init__", TRUE, TRUE, << Method("inst") >>, "none", "none") >>),
+         N("module", "m", {"initlike-filename"}, << ClassN("Cls", TRUE, TRUE, << Method("inst") >>, "none", "none"), N("func", "fun", {}, << Param("a"), Param("b"), Res >>) >>) }
   \* the same declarations written directly into a package file (pkg/__init__.py): the module entry is the package, ids keep its path
   \cup { N("module", "m", {"pkgfile"}, << x >>) : x \in { c \in Classes(tier) : Len(c.ch) <= 1 /\ (tier # "quick" \/ c.flags = {"super-none"}) } \cup Funcs \cup Enums }
   \cup { N("module", "m", {"pkgfile"}, << y, x, z >>) : x \in {N("func", "fun", {}, << Param("a"), Param("b"), Res >>)}, z \in {EnumN("Col", 2)},
